@@ -66,6 +66,9 @@ type Config struct {
 	// Returning false abandons the path (assumption contradicts facts).
 	AfterEvent func(c *Ctx, ev *Event) bool
 	Monitors   []Monitor
+	// KeepFacts disables the pruning of facts about dead values (needed when
+	// the facts at the returns are the result, as in summary extraction).
+	KeepFacts bool
 	// LoadEvents delivers a "load" event for every read of non-local memory.
 	LoadEvents bool
 	// KeepFacts: when false (default), facts about values no longer referenced are pruned.
@@ -416,6 +419,16 @@ func IVLoop(name string) (string, bool) {
 	return rest[:i], true
 }
 
+// MonByName returns the state of the named monitor in this state.
+func (s *State) MonByName(e *Engine, name string) MState {
+	for i, m := range e.Cfg.Monitors {
+		if m.Name() == name && i < len(s.mon) {
+			return s.mon[i]
+		}
+	}
+	return nil
+}
+
 // Mon returns the current state of the i-th monitor.
 func (c *Ctx) Mon(i int) MState { return c.St.mon[i] }
 
@@ -470,6 +483,9 @@ func (e *Engine) blockPos(b *ssa.BasicBlock) token.Position {
 // pruneFacts drops facts none of whose event/symbol leaves is referenced by
 // any live value, cell or monitor any more.
 func (e *Engine) pruneFacts(st *State) {
+	if e.Cfg.KeepFacts {
+		return
+	}
 	ref := map[*Term]bool{}
 	mark := func(t *Term) {
 		if t == nil {
